@@ -128,7 +128,15 @@ pub(crate) fn vertex_element_parser(count: u16) -> BinResult<Vec<VertexDeclarati
             }
         }
 
-        let to_seek = NUM_VERTICES as usize * 8 - (declaration.elements.len() + 1) * 8;
+        // a declaration holds at most NUM_VERTICES elements including the end marker
+        let Some(to_seek) =
+            (NUM_VERTICES as usize * 8).checked_sub((declaration.elements.len() + 1) * 8)
+        else {
+            return Err(binrw::Error::AssertFail {
+                pos: reader.stream_position()?,
+                message: "vertex declaration is not terminated".to_string(),
+            });
+        };
         reader.seek(SeekFrom::Current(to_seek as i64))?;
     }
 
